@@ -34,6 +34,10 @@ type Program struct {
 	Invalid string  // non-empty: what makes the program uncompilable
 	seq     int
 
+	// RecShape names the struct and the typedefs of a recursive structure one of whose
+	// members has a default leading back into it (the shape of open finding F6); nil otherwise.
+	RecShape []string
+
 	sameNames   bool
 	recDefaults bool
 	curFile     *File
@@ -284,9 +288,11 @@ func (p *Program) addRecursion() {
 	f := p.Files[s.File]
 	target := &TypeRef{Ref: &Ref{s.File, s.Name}}
 	n := ch("rec.chain", 4) // 0..3 typedefs between the field and the struct
+	shape := []string{s.Name}
 	for i := 0; i < n; i++ {
 		td := p.add(f, &Def{Kind: KTypedef, Name: p.name("Rt"), Type: target})
 		target = &TypeRef{Ref: &Ref{td.File, td.Name}}
+		shape = append(shape, td.Name)
 	}
 	switch ch("rec.wrap", 4) {
 	case 1:
@@ -302,6 +308,18 @@ func (p *Program) addRecursion() {
 			c := p.add(f, &Def{Kind: KConst, Name: p.name("C"), Type: &TypeRef{Ref: &Ref{s.File, s.Name}}})
 			c.Value = p.genValue(f, c.Type, Options{}, 1)
 			back.Default = &ConstVal{Kind: CRef, Ref: &Ref{c.File, c.Name}}
+			p.RecShape = shape
+		} else if p.recDefaults && p.constructible(s, 0) && simrt.Flip("rec.inline-default", 0.3) {
+			// ... or to a struct literal written in place, which leaves out a field of the
+			// first struct whose own default still has to be resolved (a constant)
+			c := p.add(f, &Def{Kind: KConst, Name: p.name("Cw"), Type: &TypeRef{Base: "i32"}, Value: &ConstVal{Kind: CInt, Int: int64(3 + ch("rec.weight", 90))}})
+			s.Fields = append(s.Fields, &FieldDef{ID: nextID(s.Fields), Name: fmt.Sprintf("w%d", nextID(s.Fields)), Req: ReqOptional, Type: &TypeRef{Base: "i32"},
+				Default: &ConstVal{Kind: CRef, Ref: &Ref{c.File, c.Name}}})
+			back.Default = p.genValue(f, &TypeRef{Ref: &Ref{s.File, s.Name}}, Options{}, 1)
+			if ch("rec.back-req", 2) == 1 {
+				back.Req = ReqRequired
+			}
+			p.RecShape = shape
 		}
 		target = &TypeRef{Ref: &Ref{mid.File, mid.Name}}
 	}
@@ -311,7 +329,11 @@ func (p *Program) addRecursion() {
 			id = fd.ID + 1
 		}
 	}
-	s.Fields = append(s.Fields, &FieldDef{ID: id, Name: fmt.Sprintf("self%d", id), Req: ReqOptional, Type: target})
+	self := &FieldDef{ID: id, Name: fmt.Sprintf("self%d", id), Req: ReqOptional, Type: target}
+	// fields are linked in declaration order: the position decides which of the
+	// struct's other fields are already linked when the recursion comes back
+	pos := len(s.Fields) - ch("rec.self-pos", len(s.Fields)+1)
+	s.Fields = append(s.Fields[:pos:pos], append([]*FieldDef{self}, s.Fields[pos:]...)...)
 }
 
 // addCycleReferences: where two files include each other, make the later-created
